@@ -422,7 +422,8 @@ Section Main.
       apply ustr_eqb_spec in HL. subst name.
       destruct args as [|a [|b r]]; try discriminate Hw.
       destruct Hargs as [Ha _]. rewrite dk_exprs_cons in Hdk. apply andb_true_iff in Hdk as [Hdka _].
-      destruct (Ha Hdka root ctx cur key) as (_ & Hc & _). destruct (Hc Hw) as (v & Hev & Hr).
+      destruct (Ha Hdka root ctx cur key) as (_ & Hc & _).
+      destruct (Hc (proj1 (wt_arg_comparable ext a Hw))) as (v & Hev & Hr).
       rewrite (eval_length a root ctx cur key v Hev).
       eexists. split; [reflexivity|].
       change (v_value (FFunc tname_length (ECons a ENil)) root ctx cur key)
@@ -463,8 +464,10 @@ Section Main.
     apply andb_true_iff in Hw as [Hwa Hwb].
     destruct Hargs as (Ha & Hb & _). rewrite !dk_exprs_cons in Hdk.
     apply andb_true_iff in Hdk as [Hdka Hdk]. apply andb_true_iff in Hdk as [Hdkb _].
-    destruct (Ha Hdka root ctx cur key) as (_ & Hca & _). destruct (Hca Hwa) as (va & Heva & Hra).
-    destruct (Hb Hdkb root ctx cur key) as (_ & Hcb & _). destruct (Hcb Hwb) as (vb & Hevb & Hrb).
+    destruct (Ha Hdka root ctx cur key) as (_ & Hca & _).
+    destruct (Hca (proj1 (wt_arg_comparable ext a Hwa))) as (va & Heva & Hra).
+    destruct (Hb Hdkb root ctx cur key) as (_ & Hcb & _).
+    destruct (Hcb (proj1 (wt_arg_comparable ext b Hwb))) as (vb & Hevb & Hrb).
     unfold log_ok.
     destruct (ustr_eqb name tname_match) eqn:HM.
     - apply ustr_eqb_spec in HM. subst name.
@@ -546,7 +549,7 @@ Section Main.
   Proof.
     intros Hs _ Hwt Hdk root ctx ms.
     assert (Hwt' : wt_sel ext s = true).
-    { rewrite wt_seg_sel in Hwt. destruct s; try exact Hwt. discriminate Hwt. }
+    { rewrite wt_seg_sel in Hwt. destruct s; try discriminate Hwt; try reflexivity. exact Hwt. }
     rewrite dk_seg_sel in Hdk. rewrite resolve_seg_sel, seg_nodes_sel.
     apply concat_results_map_corr. intros m. apply Hs; assumption.
   Qed.
